@@ -223,3 +223,14 @@ package revocation
 //@   loop 0 invariant forall j in 0..$i :: el.Events[j] != nil && fresh(el.Events[j]) && el.Events[j].E == c.E[j] && el.Events[j].Index == wrapU64(j + c.Index)
 //@   loop 0 invariant ($i > 0 ==> el.Events[0].ParentHash == c.ParentHash) && forall j in 1..$i :: hasheq(el.Events[j-1], el.Events[j].ParentHash)
 //@   loop 0 modifies elems(el.Events), onlyfresh("BV"), onlyfresh("revocation.Event")
+
+//@ # ---- prover side of the non-revocation proof (C04: what a disclosure proof carries) ----
+//@ func (*ProofCommit).BuildProof
+//@   property C04 C11
+//@   safety
+//@   requires c != nil && challenge != nil && forall i in 0..5 :: c.secrets[secretNames[i]] != nil && c.randomizers[secretNames[i]] != nil
+//@   ensures shape: result != nil && fresh(result) && result.Cr == c.cr && result.Cu == c.cu && result.Nu == c.nu && result.Challenge == challenge && result.SignedAccumulator == c.sacc && result.Responses != nil && fresh(result.Responses)
+//@   ensures responses: forall i in 0..5 :: in(result.Responses, secretNames[i]) && result.Responses[secretNames[i]] != nil && val(result.Responses[secretNames[i]]) == val(c.randomizers[secretNames[i]]) + prod(val(challenge), val(c.secrets[secretNames[i]]))
+//@   modifies nothing
+//@   loop 0 invariant 0 <= $i && $i <= 5 && responses != nil && fresh(responses) && forall j in 0..$i :: in(responses, secretNames[j]) && responses[secretNames[j]] != nil && val(responses[secretNames[j]]) == val(c.randomizers[secretNames[j]]) + prod(val(challenge), val(c.secrets[secretNames[j]]))
+//@   loop 0 modifies mapof(responses), onlyfresh("BV")
